@@ -395,3 +395,17 @@ Proof.
     + apply mem_false; assumption.
     + apply IH; assumption.
 Qed.
+
+(* ---------- mixed key types ---------- *)
+Lemma pack_mixed_is_pack ktf c spar payload sender rcpts rn w :
+  pack_mixed ktf c spar payload sender rcpts rn = Ok w ->
+  exists c', packer_of c' = packer_of c /\ pack c' spar payload sender rcpts rn = Ok w.
+Proof.
+  unfold pack_mixed. destruct (packer_of c) eqn:P.
+  - destruct (forallb _ rcpts); [|discriminate]. intros H.
+    exists (with_kt c (ktf sender)). split; [cbn; congruence|exact H].
+  - intros H. exists (with_kt c (match rcpts with r :: _ => ktf r | [] => kt_of c end)).
+    split; [cbn; congruence|exact H].
+  - intros H. exists c. split; [congruence|exact H].
+  - intros H. exists c. split; [congruence|exact H].
+Qed.
